@@ -115,6 +115,7 @@ struct Stats {
   std::map<std::string, long long> c;
   std::map<std::string, std::set<uint64_t>> states;
   bool nontrivial = false;
+  std::string shape;            // abstract form of the run (operation / fault kinds in order, no numeric values)
   void add(const std::string& k, long long n = 1) { c[k] += n; }
   void state(const std::string& set, uint64_t key) { states[set].insert(key); }
   void state(const std::string& set, const std::string& key);
